@@ -19,6 +19,13 @@ def gen_jobs(tier, tag):
         benign = i < n_b
         g, info = gen_api.gen_database(r, nasty=0.0 if benign else 0.35, benign_sql=benign)
         k = g.emit(Op(80, info['db']))
+        if benign and i % 2 == 1:
+            # edit after a first rendering (flags, types, kinds, names ...) and render again: what is read back must follow
+            for rf in info['refs']:
+                g.emit(Op(80, rf))
+            g.single_line = True
+            gen_api.gen_edits(g, info, r.randint(1, 5), sql_benign=True)
+            k = g.emit(Op(80, info['db']))
         for t in info['tables']:
             g.emit(Op(80, t))
         for rf in info['refs']:
